@@ -124,7 +124,11 @@ func genPath(p string) string {
 	for i < len(p) {
 		if p[i] == '[' {
 			j := strings.IndexByte(p[i:], ']')
-			sb.WriteString("[*]")
+			if strings.HasPrefix(p[i:], "[k=") {
+				sb.WriteString(p[i : i+j+1]) // constant map keys are kept
+			} else {
+				sb.WriteString("[*]")
+			}
 			i += j + 1
 			continue
 		}
